@@ -3600,9 +3600,27 @@ namespace gch
       {
         using iterator_cat = typename std::iterator_traits<InputIt>::iterator_category;
 
+        // Do not destroy anything if the range is known to be too long.
+        check_range_length (first, last, iterator_cat { });
+
         // If not assignable then destroy all elements and append.
         erase_all ();
         append_range (first, last, iterator_cat { });
+      }
+
+      template <typename InputIt>
+      GCH_CPP20_CONSTEXPR
+      void
+      check_range_length (InputIt, InputIt, std::input_iterator_tag) const noexcept
+      { }
+
+      template <typename ForwardIt>
+      GCH_CPP20_CONSTEXPR
+      void
+      check_range_length (ForwardIt first, ForwardIt last, std::forward_iterator_tag) const
+      {
+        if (get_max_size () < external_range_length (first, last))
+          throw_allocation_size_error ();
       }
 
       // Ie. move-if-noexcept.
